@@ -246,7 +246,7 @@ def random_model(rng, max_species=3, max_reactions=2, max_cells=4, max_order=3, 
         if rng.random() < chem_p:
             if len(envs) > 1 and rng.random() < 0.5:
                 # per-environment flags: one environment flagged, or a full dictionary with explicit False entries next to a 'default'
-                s["chstt"] = {rng.choice(envs): True} if rng.random() < 0.5 else per_env(rng, envs, [True, False, False], p_dict=1.0)
+                s["chstt"] = {rng.choice(envs): True} if rng.random() < 0.5 else per_env(rng, envs, [True, True, False], p_dict=1.0)
             else:
                 s["chstt"] = True
         species.append(s)
